@@ -110,9 +110,13 @@ async def start_client(
 
                 if rate_limiter and rate_limiter.is_limited(remote_addr, message):
                     if command == "EVENT":
+                        # the event was not looked at yet: its id may be anything
+                        event_id = (
+                            message[1].get("id") if isinstance(message[1], dict) else ""
+                        )
                         response = [
                             "OK",
-                            message[1]["id"],
+                            event_id if isinstance(event_id, str) else "",
                             False,
                             "rate-limited: slow down",
                         ]
